@@ -1,6 +1,7 @@
 (* Extraction entry points for C17 (list Z -> list Z each).
 
-   input  = [njobs; tmo_0 .. tmo_{njobs-1}; nsd; wait_0 .. wait_{nsd-1}; tag a b; tag a b; ...]
+   input  = [njobs; cfg_0 .. cfg_{njobs-1}; nsd; wait_0 .. wait_{nsd-1}; tag a b; tag a b; ...]
+            cfg_j = bit 0: job j has a time limit, bit 1: its process ignores SIGTERM
    labels = triples (tag, a, b):
      0 LSubCheck a | 1 LSubAcquire a | 2 LSubAppend a | 3 LSubStart a | 4 LSubRelease a | 5 LSubWait a
      6 LPopen a (b<>0) | 7 LExit a | 8 LCommRet a (answer b: 0 unsat 1 sat 2 unknown 3 garbage)
@@ -75,8 +76,14 @@ Definition take_bools (l : list Z) : list bool * list Z :=
   | [] => ([], [])
   end.
 
+Definition take_cfgs (l : list Z) : list (bool * bool) * list Z :=
+  match l with
+  | n :: r => (map (fun z => (Z.testbit z 0, Z.testbit z 1)) (firstn (nz n) r), skipn (nz n) r)
+  | [] => ([], [])
+  end.
+
 Definition parse (a : list Z) : option (state * list label) :=
-  let '(tmos, r1) := take_bools a in
+  let '(tmos, r1) := take_cfgs a in
   let '(waits, r2) := take_bools r1 in
   match dec_labels (List.length r2) r2 with
   | Some ls => Some (init tmos waits, ls)
@@ -90,7 +97,7 @@ Definition enc_spc (p : spc_t) : list Z :=
   | SRecheck => [8; -1] | SUnlock => [9; -1]
   end.
 Definition enc_wpc (w : wpc_t) : Z :=
-  match w with WNew => 0 | WStarted => 1 | WComm => 2 | WFinally => 3 | WSetRes => 4 | WDone => 5 end.
+  match w with WNew => 0 | WStarted => 1 | WComm => 2 | WFinally => 3 | WSetRes => 4 | WDone => 5 | WDead => 6 end.
 Definition enc_proc (p : proc_t) : Z := match p with PNone => 0 | PRun => 1 | PDead => 2 end.
 Definition enc_exc (e : option exn) : Z :=
   match e with None => 0 | Some ETimeout => 1 | Some EOther => 2 end.
